@@ -183,6 +183,8 @@ def hist_build(case):
         t = sc.real_xf(x)
         if t:
             tr[name] = t
+    if rng.random() < 0.5:
+        tr["pairwise_indices"] = {"only_larger": False, "alpha": rng.choice([0.05, 0.3, [0.1, 0.45]])}
     # an opposing-element reference to an item of dimension S lives in the OTHER dimension's order dict
     for side, other in ((rows, "columns_dimension"), (cols, "rows_dimension")):
         if side is not None and side["xf"]["opposing"] is not None:
@@ -242,7 +244,14 @@ def eval_hist(case, louts, ctx):
     cubes = []
     seen = set()
     repeated = False
+    untouchable = sc.unshimmed_part(tr)
     for i, (op, mread, fresh) in enumerate(zip(case["ops"], lo["reads"], lo["fresh"])):
+        bad = sc.non_json_path(tr)
+        if bad:
+            findings.append(F("spec", "hist.caller-dict.non-list-value",
+                              "%s: after op #%d the caller's transforms dict holds a value that is not plain data: %s "
+                              "(a one-shot iterator is empty for every reader but the first)" % (desc, i - 1, bad)))
+            return findings, None
         if op["op_kind"] == "new":
             cubes.append(Cube(resp, transforms=tr))       # the SAME response and transforms objects
             continue
@@ -279,6 +288,16 @@ def eval_hist(case, louts, ctx):
         if len(findings) > 4:
             return findings, None
     # caller-owned dicts afterwards
+    bad = sc.non_json_path(tr)
+    if bad:
+        findings.append(F("spec", "hist.caller-dict.non-list-value",
+                          "%s: after the schedule the caller's transforms dict holds a value that is not plain data: %s" % (desc, bad)))
+        return findings, None
+    now = sc.unshimmed_part(tr)
+    if now != untouchable:
+        findings.append(F("spec", "hist.caller-dict.key-changed",
+                          "%s: entries of the caller's transforms dict that hold no element references changed: %s -> %s" %
+                          (desc, sc.jdump(untouchable), sc.jdump(now))))
     nd = len(resp["result"]["dimensions"])
     for name, side, after, dim_pos in (("rows_dimension", case["rows"], lo["rows_after"], None),
                                        ("columns_dimension", case["cols"], lo["cols_after"], None)):
@@ -289,7 +308,7 @@ def eval_hist(case, louts, ctx):
         want = sc.norm_model_xf(dict(after["xf"], opposing=None))
         if got != want:
             findings.append(F("model", "seam.hist.transforms-after", "%s: %s after schedule %s, model %s" %
-                              (desc, name, json.dumps(got), json.dumps(want))))
+                              (desc, name, sc.jdump(got), sc.jdump(want))))
         # the subvariables dimension dict of that side
         alias = "r" if name == "rows_dimension" else "c"
         for dd in resp["result"]["dimensions"]:
@@ -306,7 +325,7 @@ def eval_hist(case, louts, ctx):
                    for s in (case["rows"], case["cols"]))
     key = None
     if rewrites and repeated and (case["nparts"] > 1 or len(cubes) > 1):
-        key = ("hist", json.dumps(tr), case["nparts"], len(case["ops"]))
+        key = ("hist", sc.jdump(tr), case["nparts"], len(case["ops"]))
     ctx.count("hist-cubes:%d" % len(cubes))
     ctx.count("hist-nparts:%d" % case["nparts"])
     return findings, key
@@ -395,7 +414,8 @@ def gen_api(rng):
     return {"t": "api", "kinds": kinds, "seed": rng.randrange(1 << 30), "nsched": nsched,
             "population": rng.choice([None, None, 1000, 12345]), "min_base": rng.choice([0, 0, 0, 5, 30]),
             "with_set": rng.random() < 0.5, "ncubes": rng.choice([1, 2, 2]),
-            "mrins": rng.random() < 0.35, "holes": rng.random() < 0.2, "numeric_all": rng.random() < 0.3}
+            "mrins": rng.random() < 0.35, "holes": rng.random() < 0.2, "numeric_all": rng.random() < 0.3,
+            "pairwise": rng.choice([None, 0.05, 0.3, [0.1, 0.45]])}
 
 
 def gen_scale(rng):
@@ -483,6 +503,8 @@ def api_build(case):
             t["prune"] = True
         if t:
             tr[name] = t
+    if case.get("pairwise") and len(sides) == 2:
+        tr["pairwise_indices"] = {"only_larger": False, "alpha": case["pairwise"]}
     # sort by opposing element: reference an array item of the OTHER dimension in some spelling
     if len(sides) == 2 and rng.random() < 0.35:
         for (name, (k, v)), oname, meas in ((list(zip(names, sides))[1], "rows_dimension", "col_percent"),
@@ -625,13 +647,77 @@ def eval_api(case, louts, ctx):
                     break
             if nerr:
                 break
-    # the caller's dicts must be re-usable: one more cube on them, like for like
+    # the caller's transforms dict afterwards: plain data, and nothing but element references rewritten
+    bad = sc.non_json_path(tr)
+    if bad:
+        findings.append(F("spec", "api.caller-dict.non-list-value",
+                          "%s: after the schedule the caller's transforms dict holds a value that is not plain data: %s "
+                          "(a one-shot iterator is empty for every reader but the first)" % (desc, bad)))
+    elif sc.unshimmed_part(tr) != sc.unshimmed_part(tr0):
+        findings.append(F("spec", "api.caller-dict.key-changed",
+                          "%s: entries of the caller's transforms dict that hold no element references changed: %s -> %s" %
+                          (desc, sc.jdump(sc.unshimmed_part(tr0)), sc.jdump(sc.unshimmed_part(tr)))))
+    # a second partition of the SAME Cube object with OTHER transforms (CubePartition.factory) is a fresh evaluation too
+    if nerr == 0 and not findings:
+        findings += factory_check(case, resp0, tr0, objs, nparts, rng, desc)
     kinds_key = tuple(case["kinds"])
     ctx.count("api-kinds:%s" % "x".join(case["kinds"]))
     ctx.count("api-nparts:%d" % nparts)
     arr = any(k in ("mr", "ca") for k in case["kinds"])
     key = (kinds_key, json.dumps(tr0), len(sched)) if arr and tr0 and (nparts > 1 or case["ncubes"] > 1) else None
     return findings, key
+
+
+def other_transforms(case, resp0, tr0, rng):
+    """transforms that differ from `tr0` in what they insert / hide / rename on each dimension"""
+    from cr.cube.cube import Cube
+    t2 = copy.deepcopy(tr0)
+    dims = Cube(copy.deepcopy(resp0)).dimensions[-2:]
+    for name, d in zip(["rows_dimension", "columns_dimension"], dims):
+        dt = dict(t2.get(name) or {})
+        ids = [e for e in d.element_ids]
+        tname = d.dimension_type.name
+        if tname in ("CAT", "CA_CAT") and len(ids) >= 2 and all(isinstance(i, int) for i in ids):
+            dt["insertions"] = [{"anchor": "top", "name": "Other sub", "function": "subtotal", "args": ids[-2:],
+                                 "kwargs": {"positive": ids[-2:]}, "id": 7}]
+        elif ids:
+            e = dict(dt.get("elements") or {})
+            e[ids[-1]] = {"name": "Factory renamed"}
+            dt["elements"] = e
+        dt.pop("prune", None)
+        t2[name] = dt
+    return t2
+
+
+def factory_check(case, resp0, tr0, objs, nparts, rng, desc):
+    from cr.cube.cube import Cube
+    from cr.cube.cubepart import CubePartition
+    cube = objs["cube0"]
+    k = rng.randrange(nparts)
+    t2 = other_transforms(case, resp0, tr0, rng)
+    try:
+        first = cube.partitions[k]
+        for n in ("counts", "row_labels", "column_labels", "columns_margin", "rows_margin"):
+            read(first, n)                       # the cube's own partition has been looked at
+        part = CubePartition.factory(cube, slice_idx=k, transforms=copy.deepcopy(t2), population=cube._population,
+                                     ca_as_0th=cube._ca_as_0th, mask_size=cube._mask_size)
+        ref = Cube(copy.deepcopy(resp0), transforms=copy.deepcopy(t2), population=case["population"],
+                   mask_size=case["min_base"]).partitions[k]
+    except Exception as e:  # noqa
+        return []
+    names = [n for n in public_reads(ref) if n not in ("pairwise_significance_tests",)]
+    rng.shuffle(names)
+    out = []
+    for n in names[:40]:
+        got, want = read(part, n), read(ref, n)
+        ok, where = common.deep_close(got, want)
+        if not ok:
+            out.append(F("spec", "api.factory-partition.differs-from-fresh",
+                         "%s: CubePartition.factory(cube, %d, transforms=%s).%s on a Cube whose own partition was read "
+                         "before gives %s, a fresh Cube with those transforms gives %s (%s)" %
+                         (desc, k, sc.jdump(t2), n, sc.jdump(got)[:160], sc.jdump(want)[:160], where)))
+            break
+    return out
 
 
 # ---------------------------------------------------------------------------------------
